@@ -80,12 +80,17 @@ def do_check(tier, seed, t0):
             d = d[p]
         if not d:
             raise Harness("reach probe %s is zero" % "/".join(path))
+    unreproduced = []
     for v in a["violations"]:
         rc, out = sh([BIN, "replay", v["replay"], "--shim", SHIM, "--tmp-root", os.path.join(BUILD, "sessim-tmp")])
         if rc != 1:
-            raise Harness("violation %s did not reproduce on replay (rc=%d):\n%s" % (v["replay"], rc, out[-2000:]))
+            unreproduced.append((v["replay"], rc, out[-1500:]))
+            continue
         viol_lines.append("VIOLATION property=C19 replay=%s" % v["replay"])
         log("  %s: %s" % (v["replay"], v["what"]))
+    if a["violations"] and not viol_lines:
+        # every minimised divergence must replay; if none does, the simulator (not the repo) is at fault
+        raise Harness("no divergence reproduced on replay: %s" % unreproduced)
     layers["A1_native_session"] = {k: a[k] for k in a if k not in ("samples", "violations", "errors", "_rc")}
 
     # ---- layer A3: the real proc-macro dylib inside the real rustc
